@@ -314,3 +314,17 @@ pub proof fn lemma_stable_is_fix(fs: Seq<BF>, v: Seq<Term>)
     }
 }
 
+// the filter of the enumerate-and-check stable semantics: candidate v and grounded-of-reduct grd agree on information
+pub open spec fn pairs_agree(a: Seq<Term>, b: Seq<Term>) -> bool {
+    forall|j: int| 0 <= j < a.len() && j < b.len() ==> tvo(#[trigger] a[j]) == tvo(b[j])
+}
+pub proof fn lemma_pairs_stable(fs: Seq<BF>, v: Seq<Term>, grd: Seq<Term>)
+    requires is_lfp(reduct(fs, v), tvs(grd)), v.len() == grd.len(),
+    ensures pairs_agree(v, grd) <==> is_stable(fs, v)
+{
+    if pairs_agree(v, grd) { assert(tvs(v) =~= tvs(grd)); }
+    if is_stable(fs, v) {
+        lemma_lfp_unique(reduct(fs, v), tvs(grd), tvs(v));
+        assert forall|j: int| 0 <= j < v.len() && j < grd.len() implies tvo(#[trigger] v[j]) == tvo(grd[j]) by { assert(tvs(v)[j] == tvs(grd)[j]); }
+    }
+}
